@@ -334,6 +334,38 @@ def gen_label_boundary(rng, cap=1500):
     return gen_perm_graph(rng, cap)
 
 
+def gen_extreme_codes(rng, cap=1500):
+    """Single-word codes that use all 64 bits (n*w = 64): orbits containing the code words 2^63-1 (INT64_MAX), -2^63 (INT64_MIN), -2, 1 ... -
+    the values at which sentinels, sign tests and 'diff > 0' tricks on sorted hashes break.  The identity hash makes them deterministic.
+    Use with bit_encoding_width 'auto' (= w) so that the code is one word."""
+    n, w = rng.choice([(64, 1), (32, 2), (16, 4), (64, 1)])
+    top = 2**w - 1
+    kind = rng.choice(["one_low", "one_high", "two"])
+    if kind == "one_low":        # all symbols maximal except one 'top >> 1': when it sits in the last place the word is 2^63 - 1
+        central = [top] * n
+        central[rng.randrange(n)] = top >> 1
+    elif kind == "one_high":     # all zero except one 2^(w-1): in the last place the word is -2^63
+        central = [0] * n
+        central[rng.randrange(n)] = 2**(w - 1)
+    else:
+        central = [top] * n
+        a, b = rng.sample(range(n), 2)
+        central[a], central[b] = top >> 1, 0
+    shift = [(i + 1) % n for i in range(n)]
+    gens = [shift]
+    r = rng.random()
+    if r < 0.35:
+        gens.append([(i - 1) % n for i in range(n)])
+    if r < 0.2 or r > 0.7:
+        gens.append([1, 0] + list(range(2, n)))
+    if r > 0.9:
+        gens.append(list(range(n - 2)) + [n - 1, n - 2])
+    gd = {"kind": "perm", "gens": gens, "central": central}
+    if ref_bfs(gd, [central], cap) is not None:
+        return gd
+    return {"kind": "perm", "gens": [shift], "central": central}
+
+
 def gen_overflow_matrix_graph(rng, cap=1500):
     """Matrix graphs built so that an exact dot product exceeds 2^53 (and, for the largest moduli, 2^63 before reduction): a modulus just
     below / above sqrt(2^53/n) ... sqrt(2^63/n), a finite-order generator with a row of several -1 (= m-1), states made of m-1, m-2, m-3."""
